@@ -447,6 +447,13 @@ class Shim:
 
         def os_close(fd):
             if S.from_trashcli():
+                sp = (S.plan.get('faults') or {}).get('close')
+                if sp and sp.get('lossy'):
+                    # close(2) reporting a deferred write error (NFS, quota): what had been written is not there
+                    try:
+                        os.ftruncate(fd, 0)
+                    except OSError:
+                        pass
                 return S.lib('close', [], lambda: O['os.close'](fd))
             return O['os.close'](fd)
         os.close = os_close
